@@ -97,4 +97,4 @@ def count(name, lines, ib, stats, meta):
             if len(stats['samples']) < 4 and sends_of(b): stats['samples'].append({'discover': fr[:40].hex(), 'hello': sends_of(b)[0][2][:46].hex()})
         hist = {0: 'disc', 1: 'hello', 8: 'reset'}.get(d['opc'], 'other') + str(min(d['tos'], 2))
         tr.feed(d)
-EXPLORE = dict(ops=('frame',), mtu=True)
+EXPLORE = dict(domain='frames', ops=('frame',), mtu=True)
